@@ -113,31 +113,61 @@ EQ_KINDS = ["ode", "statio1", "statio2", "nonstatio1", "nonstatio2", "sysode"]
 
 
 class FaultState(NamedTuple):
-    count: jax.Array
+    count: jax.Array  # local step counter of the stage
+    at: jax.Array  # int32[nf]: iteration at which fault f fires (-1: disarmed)
+    val: jax.Array  # float[nf]: the value written (nan / inf)
 
 
-def fault_stage(faults):
-    """faults: list of {at, leaf, value} ; at iteration `at` (local step counter
-    of this stage) the first entry of leaf number `leaf` (index into the
-    flattened update tree, modulo its length) is replaced by `value`."""
+def fault_stage(leaves_idx):
+    """An optax stage with one slot per entry of `leaves_idx` (index into the
+    flattened update tree, modulo its length).  WHEN a slot fires and WHAT it
+    writes lives in the optimizer *state* (armed by `arm()`), so that every
+    fault position of one program shares one compiled training loop."""
+    nf = len(leaves_idx)
 
     def init(params):
         del params
-        return FaultState(count=jnp.zeros([], jnp.int32))
+        return FaultState(count=jnp.zeros([], jnp.int32), at=-jnp.ones((nf,), jnp.int32),
+                          val=jnp.zeros((nf,), dtype=float))
 
     def update(updates, state, params=None):
         del params
         leaves, td = jax.tree_util.tree_flatten(updates)
-        for f in faults:
-            j = f["leaf"] % len(leaves)
-            val = {"nan": jnp.nan, "inf": jnp.inf, "-inf": -jnp.inf}[f["value"]]
+        for f, j in enumerate(leaves_idx):
+            j = j % len(leaves)
             x = leaves[j]
             flat = x.reshape(-1)
-            poisoned = flat.at[0].set(val).reshape(x.shape)
-            leaves[j] = jnp.where(state.count == f["at"], poisoned, x)
-        return jax.tree_util.tree_unflatten(td, leaves), FaultState(count=state.count + 1)
+            poisoned = flat.at[0].set(state.val[f].astype(x.dtype)).reshape(x.shape)
+            leaves[j] = jnp.where(state.count == state.at[f], poisoned, x)
+        return jax.tree_util.tree_unflatten(td, leaves), FaultState(state.count + 1, state.at, state.val)
 
     return optax.GradientTransformation(init, update)
+
+
+def arm(opt_state, faults):
+    """Write the (at, value) of every fault into the FaultState slots.  The
+    k-th fault of origin 'grad' goes to the k-th slot of the stage chained
+    before the real optimizer, likewise 'update' after it."""
+    pre = [f for f in faults if f["origin"] == "grad"]
+    post = [f for f in faults if f["origin"] == "update"]
+    stages = []
+
+    def collect(s):
+        if isinstance(s, FaultState):
+            stages.append(s)
+        return s
+
+    jax.tree_util.tree_map(collect, opt_state, is_leaf=lambda x: isinstance(x, FaultState))
+    want = ([pre] if pre else []) + ([post] if post else [])
+    if len(stages) != len(want):
+        raise HarnessError("fault stages and faults do not match")
+    repl = {}
+    for st, fl in zip(stages, want):
+        at = jnp.asarray([f["at"] for f in fl], jnp.int32)
+        val = jnp.asarray([{"nan": np.nan, "inf": np.inf, "-inf": -np.inf}[f["value"]] for f in fl], dtype=float)
+        repl[id(st)] = FaultState(st.count, at, val)
+    return jax.tree_util.tree_map(lambda s: repl.get(id(s), s) if isinstance(s, FaultState) else s,
+                                  opt_state, is_leaf=lambda x: isinstance(x, FaultState))
 
 
 def make_optimizer(spec, faults=()):
@@ -163,10 +193,10 @@ def make_optimizer(spec, faults=()):
     post = [f for f in faults if f["origin"] == "update"]
     stages = []
     if pre:
-        stages.append(fault_stage(pre))
+        stages.append(fault_stage([f["leaf_idx"] for f in pre]))
     stages.append(opt)
     if post:
-        stages.append(fault_stage(post))
+        stages.append(fault_stage([f["leaf_idx"] for f in post]))
     return optax.chain(*stages) if len(stages) > 1 else opt
 
 
@@ -320,7 +350,22 @@ def build(program):
     else:
         cls = ParamsDict if P.system else Params
         P.tracked = cls(nn_params=None, eq_params={k: tr.get(k) for k in program["eq_params"]})
-    P.optimizer = make_optimizer(program["opt"], program.get("faults", []))
+    faults = [dict(f) for f in program.get("faults", []) if f["origin"] in ("grad", "update")]
+    flat = jax.tree_util.tree_leaves(params)
+    n_nn = len(jax.tree_util.tree_leaves(params.nn_params))
+    eq_names = sorted(program["eq_params"])
+    for f in faults:
+        lf = f["leaf"]
+        if isinstance(lf, str) and lf.startswith("eq:"):
+            f["leaf_idx"] = n_nn + eq_names.index(lf[3:])
+        else:
+            f["leaf_idx"] = int(str(lf).split(":")[-1]) % n_nn
+    assert len(flat) == n_nn + len(eq_names)
+    P.faults = faults
+    P.optimizer = make_optimizer(program["opt"], faults)
+    P.init_opt_state = None
+    if faults:
+        P.init_opt_state = arm(P.optimizer.init(params), faults)
     return P
 
 
@@ -364,7 +409,7 @@ def build_obs(program):
     pin = np.stack(cols, axis=1).astype(dt)
     val = (0.5 * np.sin(pin.sum(axis=1)) + 0.1 * r / max(n, 1)).astype(dt)[:, None]
     if o.get("nan_row") is not None:
-        val[o["nan_row"] % n, 0] = np.nan
+        val[o["nan_row"] % n, 0] = np.inf if o.get("nan_value") == "inf" else np.nan
     eq = {}
     for k in o.get("params", []):
         eq[k] = jnp.asarray((program["eq_params"][k] * (1.0 + 0.05 * np.cos(r))).astype(dt))
